@@ -1,9 +1,10 @@
 /-
   Proofs/C09.lean — isolated-margin liquidation: the price formulas (GENERATED from
-  jesse/models/Position.py).  The trigger/closing-order part is in Proofs/C09/ (engine model).
+  jesse/models/Position.py) and the trigger / force-closing order of `_check_for_liquidations` (engine model).
   PROPERTY THEOREMS ONLY.
 -/
 import Jesse.Gen.Position
+import Jesse.Engine
 import Proofs.Lemmas.Num
 
 namespace C09
@@ -86,5 +87,86 @@ theorem bankruptcy_loss_is_initial_margin (p : PosView) (hm : p.mode = .isolated
 /-- non-vacuity: leverage 10 long at 100 → liquidation 90.4, bankruptcy 90 -/
 example : liquidationPrice { qty := 2, entry := 100, current := 100, leverage := 10, mode := .isolated, hasStrategy := True }
     = .ok (some (452/5)) := by decide +kernel
+
+/-! ### the trigger and the force-closing order (engine model) -/
+
+section trigger
+open Jesse.Eng Jesse.Acc
+variable {M : Type} [Inhabited M] (u : UserStrategy M)
+
+/-- the position as `_check_for_liquidations` reads it -/
+def viewOf (e : Engine M) (sym : Nat) : PosView :=
+  { qty := (posOf e sym).qty, entry := (posOf e sym).entry.getD 0, current := (posOf e sym).current.getD 0,
+    leverage := e.w.leverage, mode := .isolated, hasStrategy := True }
+
+/-- NEVER WITHOUT A TOUCH: if the liquidation check of a minute (or chunk) changes anything at all, then the
+    session is isolated-margin futures, the position is open and the candle's range contains its liquidation price. -/
+theorem liquidation_only_when_touched (e : Engine M) (sym : Nat) (c : Candle) (h : checkLiquidation u e sym c ≠ e) :
+    e.cfg.isolated = true ∧ e.w.kind ≠ .spot ∧ (posOf e sym).qty ≠ 0 ∧
+      ∃ liq, liquidationPrice (viewOf e sym) = .ok (some liq) ∧ candleIncludesPrice c liq := by
+  unfold checkLiquidation at h
+  by_cases he : e.err.isSome
+  · rw [if_pos he] at h; exact absurd rfl h
+  · rw [if_neg he] at h
+    by_cases h2 : ¬ e.cfg.isolated ∨ e.w.kind = .spot
+    · rw [if_pos h2] at h; exact absurd rfl h
+    · rw [if_neg h2] at h
+      have hiso : e.cfg.isolated = true := by
+        by_cases hi : e.cfg.isolated = true
+        · exact hi
+        · exact absurd (Or.inl hi) h2
+      have hk : e.w.kind ≠ .spot := fun hk => h2 (Or.inr hk)
+      by_cases hq : (posOf e sym).qty = 0
+      · simp only [hq, if_true] at h; exact absurd rfl h
+      · refine ⟨hiso, hk, hq, ?_⟩
+        simp only [hq, if_false] at h
+        show ∃ liq, liquidationPrice (viewOf e sym) = _ ∧ _
+        unfold viewOf
+        cases hl : liquidationPrice { qty := (posOf e sym).qty, entry := (posOf e sym).entry.getD 0, current := (posOf e sym).current.getD 0,
+                                      leverage := e.w.leverage, mode := .isolated, hasStrategy := True } with
+        | error k => rw [hl] at h; exact absurd rfl h
+        | ok o =>
+          cases o with
+          | none => rw [hl] at h; exact absurd rfl h
+          | some liq =>
+            refine ⟨liq, rfl, ?_⟩
+            rw [hl] at h
+            by_contra hn
+            cases hb : bankruptcyPrice { qty := (posOf e sym).qty, entry := (posOf e sym).entry.getD 0, current := (posOf e sym).current.getD 0,
+                                         leverage := e.w.leverage, mode := .isolated, hasStrategy := True } with
+            | none => rw [hb] at h; exact absurd rfl h
+            | some bk =>
+              rw [hb] at h
+              simp only [hn, decide_false, Bool.false_eq_true, if_false] at h
+              exact absurd rfl h
+
+
+/-- WHEN TOUCHED: in an isolated-margin futures session with an open position whose liquidation price lies in
+    the candle's range, the check submits ONE order — MARKET, reduce-only, on the closing side, for the whole
+    position, priced at the bankruptcy price — executes it at once (hooks included) and counts one liquidation. -/
+theorem liquidation_when_touched (e : Engine M) (sym : Nat) (c : Candle) (liq bk : Rat) (w' : World)
+    (herr : e.err = none) (hiso : e.cfg.isolated = true) (hk : e.w.kind ≠ .spot) (hq : (posOf e sym).qty ≠ 0)
+    (hliq : liquidationPrice (viewOf e sym) = .ok (some liq)) (hbk : bankruptcyPrice (viewOf e sym) = some bk)
+    (htouch : candleIncludesPrice c liq)
+    (hsub : Acc.submit e.w sym (if (posOf e sym).qty > 0 then Side.sell else Side.buy) .market (posOf e sym).qty bk true = .ok w') :
+    checkLiquidation u e sym c =
+      executeOrder u
+        (logE (logE { e with w := w', via := e.via ++ [none], storage := upd e.storage sym (· ++ [e.w.orders.length]),
+                             liquidations := e.liquidations + 1 }
+                (Event.submit e.w.orders.length sym (Acc.getD w'.orders e.w.orders.length).side (Acc.getD w'.orders e.w.orders.length).type
+                  (Acc.getD w'.orders e.w.orders.length).qty (Acc.getD w'.orders e.w.orders.length).price
+                  (Acc.getD w'.orders e.w.orders.length).reduceOnly))
+              (Event.liquidation sym))
+        e.w.orders.length := by
+  unfold checkLiquidation
+  have h2 : ¬ (¬ e.cfg.isolated ∨ e.w.kind = .spot) := by
+    intro h; rcases h with h | h
+    · exact h hiso
+    · exact hk h
+  unfold viewOf at hliq hbk
+  simp only [herr, Option.isSome_none, Bool.false_eq_true, if_false, h2, hq, hliq, hbk, htouch, decide_true, if_true, hsub]
+
+
+end trigger
 
 end C09
